@@ -18,7 +18,7 @@ POSITIONS = ["top", "fun", "closure", "method", "test"]
 MODES = ["playground-run", "sandboxed-test"]
 GIB = 1024 * 1024
 WALL = 60.0
-HEAVY_PARALLEL = 3
+HEAVY_PARALLEL = 4
 BIGSTR = 'let big = "ab"\nlet big_i = 0\nwhile big_i < 20 { big = big ^ big big_i += 1 }\n'          # 2 MiB
 BIGLIST = 'let bigl_s = "ab"\nlet bigl_i = 0\nwhile bigl_i < 15 { bigl_s = bigl_s ^ bigl_s bigl_i += 1 }\nlet bigl = bigl_s.chars()\n'   # 65 536 one-character strings
 MAXI, MINI = "9223372036854775807", "-9223372036854775808"
@@ -67,7 +67,7 @@ def loops():
         ("recursion: closure applied to itself", "", "let k = fun(g) { g(g) }\nk(k)", False),
         ("recursion: method", "method rec_m(this: Int) { this.rec_m() }\n", "1.rec_m()", False),
         ("recursion: through a map callback", "fun rec_map() { [1].map(fun(_) { rec_map() }) }\n", "rec_map()", False),
-        ("blocking: read_line with stdin open", "", "read_line()", True),
+        ("blocking: read_line with stdin open", "", "let line = read_line()\nthrow(string_repr(line))", True),
     ]
 
 
